@@ -1,21 +1,28 @@
 """C15 configuration for bin/check."""
 CFG = dict(
+    also=["C07:units"],   # "harmonising the units of several profiles preserves each profile's physical totals": C07's ScaleProfiles/ScaleN model on its convertible-units streams
     level="proof", pfile="P_C15.v", rmod="R_C15", judge="judge_C15",
     level_text="Theorems (all unit tables satisfying the decidable table_ok, all int64 values, all spellings): exact-ratio conversion, "
                "identity, negation, family confinement, unknown units untouched, auto picks the largest unit >= 1, label read-back "
                "within half a printed digit, label monotonicity, percentage = absolute ratio; table facts re-proved by vm_compute on the "
                "unit table regenerated from /repo each run; model tied to the code by 16k+ differential cases per quick run.",
-    level_note="Values are exact rationals in the model, float64 in Go: compared within 2^-40 relative, boundary cases skipped and counted; "
-               "trusted: Coq kernel + vm_compute, translator gen-unittable, harness, fmt/strconv number formatting, strings.ToLower beyond ASCII.",
+    level_note="Two models: M_Measure (exact rationals; what the theorems are about) and M_MeasureF (the same functions with IEEE binary64 "
+               "arithmetic from Coq's SpecFloat, pure Gallina, in the order measurement.go uses float64; fmt's %.2f and %.2g as the correctly "
+               "rounded decimals of the float's exact value). The implementation is compared BIT FOR BIT with M_MeasureF (no tolerance, no "
+               "skipped case); each compared case is also checked against the exact-rational specification (within float rounding, except in "
+               "the counted near-boundary classes) and, in the whole-number-factor families, to be the correctly rounded exact quotient. "
+               "trusted: Coq kernel + vm_compute, translator gen-unittable, harness, strings.ToLower beyond ASCII.",
     translators=[("gen-unittable", "Gen/Gen_UnitTable.v")],
     rule="inputs = (op, value, from-unit, to-unit): full spelling x target matrix (every alias, plural, case variant, "
          "unknown units) with rotating boundary values, plus random triples, monotonicity pairs, percentages and "
-         "CommonValueType lists; distinct = sha256 of the input term; non-trivial = value != 0 and from != to "
+         "CommonValueType lists, and text reports (pprof -top rows: labels under -unit/minimum and divide_by, flat%/sum%/cum%) of small "
+         "profiles; the harmonising clause reuses C07's convertible-units streams (also=C07:units); distinct = sha256 of the input term; non-trivial = value != 0 and from != to "
          "(scale/label), x != y (mono), both operands non-zero (pct), >= 2 types (common)",
     spec_what="unit conversion / label read-back / monotonicity / percentage differs from the C15 statement",
     trusted_base=["translator gen-unittable (dumps measurement.UnitTypes, factors as exact rationals of the float64s)",
-                  "float64 arithmetic of Go compared with exact Q within 2^-40 relative; comparisons within float noise of a rounding boundary are skipped and counted",
+                  "Coq SpecFloat (binary64 operations as Gallina functions) taken as the meaning of Go's float64 + - * /, int64->float64 and fmt %.2f/%.2g; agreement is observed bit for bit on every case",
+                  "the exact-rational specification is not applied to a float result within float noise of a rounding/selection boundary (classes 900/901, counted in evidence)",
                   "strings.ToLower modelled for ASCII only"],
-    assumptions=["float64 rounding is outside the model (tolerance 2^-40 relative)",
-                 "fmt %.2f / %5.2g rendering trusted; %5.2g strings are not compared"],
+    assumptions=["the theorems of P_C15 are about the exact-rational model; its link to the float model is checked per case (within float rounding), not proved",
+                 "text-report rows are generated for single-frame samples with pairwise distinct |value| (ordering of ties is C08's subject)"],
  )
